@@ -86,14 +86,32 @@ func userPrim[X primT](h *rt.H, deliver func(structform.ExtVisitor) error, want 
 	h.Assert("value", ok)
 }
 
-// UNFOLD_UserPrim (C13, C14): primitive user unfolders for bool, string, two float
-// and four integer parameter types x the event kinds that convert into them.
+// UNFOLD_UserPrim (C13, C14): primitive user unfolders for bool, string, the two float
+// and the ten integer parameter types x the event kinds that convert into them.
 func UNFOLD_UserPrim(h *rt.H) {
 	x := h.U64("x")
 	k := h.Choose("event", 0, 10) // integer event kinds of callScalar
 	val, big := intValueOf(k, x)
 	ints := func(v structform.ExtVisitor) error { return callScalar(k, x, v) }
-	switch h.Choose("param", 0, 7) {
+	switch h.Choose("param", 0, 13) {
+	case 8:
+		h.Assume(!big)
+		userPrim(h, ints, int(val))
+	case 9:
+		h.Assume(!big && val >= -32768 && val <= 32767)
+		userPrim(h, ints, int16(val))
+	case 10:
+		h.Assume(!big && val >= -(1<<31) && val < 1<<31)
+		userPrim(h, ints, int32(val))
+	case 11:
+		h.Assume(big || val >= 0)
+		userPrim(h, ints, uint(val))
+	case 12:
+		h.Assume(!big && val >= 0 && val <= 255)
+		userPrim(h, ints, uint8(val))
+	case 13:
+		h.Assume(!big && val >= 0 && val < 1<<32)
+		userPrim(h, ints, uint32(val))
 	case 0:
 		userPrim(h, func(v structform.ExtVisitor) error { return v.OnBool(x&1 == 1) }, x&1 == 1)
 	case 1:
@@ -300,5 +318,126 @@ func UNFOLD_UserState(h *rt.H) {
 	} else {
 		h.Assert("member-events", eq(got, want) && (member != 3 || eq(got2, want)))
 	}
+	h.Assert("neighbours", rt.And(o.A == x, o.Z == y))
+}
+
+// ---- processing unfolders: the member's value is unfolded into a cell of another
+// type chosen by user code, then handed to a user function together with the target
+
+type uprocT struct {
+	sum   int16
+	calls int8
+}
+
+type uprocCellStruct struct {
+	X int8
+	Y []int8
+}
+
+type uprocOuter struct {
+	A int8
+	P uprocT
+	Q *uprocT
+	L []uprocT
+	Z int8
+}
+
+// UNFOLD_UserProcessing (C13, C14): a processing unfolder func(*T) (cell, func(*T,
+// cell) error) for T as field, behind a pointer and as slice element, with a scalar,
+// a slice and a struct as cell type: the cell receives exactly the member's value,
+// the continuation runs exactly once per value, the members around it are assigned.
+func UNFOLD_UserProcessing(h *rt.H) {
+	x, y := int8(h.U8("x")), int8(h.U8("y"))
+	cellKind := h.Choose("cell", 0, 2)
+	proc := func(to *uprocT) (interface{}, func(*uprocT, interface{}) error) {
+		done := func(to *uprocT, cell interface{}) error {
+			to.calls++
+			switch c := cell.(type) {
+			case *int64:
+				to.sum = int16(*c)
+			case *[]int8:
+				for _, e := range *c {
+					to.sum += int16(e)
+				}
+			case *uprocCellStruct:
+				to.sum = int16(c.X)
+				for _, e := range c.Y {
+					to.sum += int16(e)
+				}
+			}
+			return nil
+		}
+		switch cellKind {
+		case 0:
+			return new(int64), done
+		case 1:
+			return new([]int8), done
+		}
+		return new(uprocCellStruct), done
+	}
+	var o uprocOuter
+	u, err := gotype.NewUnfolder(&o, gotype.Unfolders(proc))
+	h.Assert("unfolder-created", err == nil)
+	if err != nil {
+		return
+	}
+	v := structform.EnsureExtVisitor(u)
+	step := func(e error) {
+		if err == nil {
+			err = e
+		}
+	}
+	var want int16
+	value := func() {
+		switch cellKind {
+		case 0:
+			step(v.OnInt8(x))
+			want = int16(x)
+		case 1:
+			step(v.OnArrayStart(2, structform.AnyType))
+			step(v.OnInt8(x))
+			step(v.OnInt8(y))
+			step(v.OnArrayFinished())
+			want = int16(x) + int16(y)
+		case 2:
+			step(v.OnObjectStart(-1, structform.AnyType))
+			step(v.OnKey("x"))
+			step(v.OnInt8(x))
+			step(v.OnKey("y"))
+			step(v.OnArrayStart(-1, structform.AnyType))
+			step(v.OnInt8(y))
+			step(v.OnArrayFinished())
+			step(v.OnObjectFinished())
+			want = int16(x) + int16(y)
+		}
+	}
+	member := h.Choose("member", 0, 2)
+	step(v.OnObjectStart(-1, structform.AnyType))
+	step(v.OnKey("a"))
+	step(v.OnInt8(x))
+	step(v.OnKey([]string{"p", "q", "l"}[member]))
+	if member == 2 {
+		step(v.OnArrayStart(-1, structform.AnyType))
+		value()
+		value()
+		step(v.OnArrayFinished())
+	} else {
+		value()
+	}
+	step(v.OnKey("z"))
+	step(v.OnInt8(y))
+	step(v.OnObjectFinished())
+	h.Assert("no-error", err == nil)
+	one := func(t uprocT) bool { return rt.And(t.sum == want, t.calls == 1) }
+	ok := false
+	switch member {
+	case 0:
+		ok = one(o.P)
+	case 1:
+		ok = o.Q != nil && one(*o.Q)
+	case 2:
+		ok = len(o.L) == 2 && rt.And(one(o.L[0]), one(o.L[1]))
+	}
+	h.Assert("processed", ok)
 	h.Assert("neighbours", rt.And(o.A == x, o.Z == y))
 }
